@@ -936,17 +936,51 @@ func summaryMatch(p *Prog, g Guard, cond ssa.Value, env map[*ssa.Phi]ssa.Value) 
 		}
 		// a boolean expression helper ("return a && !b"): the fact holds on
 		// the caller's edge for the value that implies it
-		if rets := Returns(h); len(rets) == 1 {
-			rv := ReturnOperand(rets[0], 0)
-			if _, isConst := ConstBool(rv); !isConst {
+		if rets := Returns(h); len(rets) >= 1 {
+			nonConst := 0
+			for _, rt := range rets {
+				if _, isConst := ConstBool(ReturnOperand(rt, 0)); !isConst {
+					nonConst++
+				}
+			}
+			if nonConst > 0 {
+				// every return that can yield `want` must imply the fact: a constant of the
+				// other value is vacuous, a constant `want` needs its block cut, an
+				// expression must imply it
 				for _, want := range []bool{true, false} {
-					holds := false
+					holds := true
+					some := false
 					WithSubst(FrameSubst(c.Common(), h), func() {
 						summaryDepth++
 						defer func() { summaryDepth-- }()
-						holds = boolImplies(p, h, g, rv, want, 0)
+						for _, rt := range rets {
+							rv := ReturnOperand(rt, 0)
+							if b, isConst := ConstBool(rv); isConst {
+								if b != want {
+									continue
+								}
+								res := CutReach(p, h, g, rt.Block())
+								if res.Reachable || len(res.Instances) == 0 {
+									holds = false
+								} else {
+									some = true
+								}
+								continue
+							}
+							if boolImplies(p, h, g, rv, want, 0) {
+								some = true
+							} else {
+								// the expression may still be cut on the way to its return
+								res := CutReach(p, h, g, rt.Block())
+								if res.Reachable || len(res.Instances) == 0 {
+									holds = false
+								} else {
+									some = true
+								}
+							}
+						}
 					})
-					if holds {
+					if holds && some {
 						if want {
 							return fin(0), true, FuncName(h)
 						}
